@@ -204,7 +204,7 @@ def run_case(emit, cid, cs, rng, sample):
     # ---- restart from the converged point with the intercept moved: the stopping value returned by that run must again be
     # the violation of ITS returned point (a value that leaves the intercept out shows up here at once)
     if (not viols and stop <= tol and case.fit_intercept and case.solver_name in HOOKED and np.all(np.isfinite(w))
-            and case.ref_df.kind != "multitask"):
+            and case.ref_df.kind != "multitask" and measurable):
         w1 = np.array(w, dtype=float, copy=True)
         w1[-1] += 1.5
         wb, bb = case.ref.split(w1)
